@@ -109,6 +109,10 @@ static void check_fp(const lit_t * l, int sample) {
     }
     if ((s = decode(CMD_F, l->text, l->n, l->cls))) {
         if (memcmp(&s->f, &wantf, 4) != 0 && s->f == strtof(l->text, NULL) && long_ws_finding(l, strtod(l->text, NULL))) { }
+#if VH_LIB_NO_STRTOF
+        /* recorded finding: a library compiled without strtof (C90 libc) converts through strtod and narrows: rounded twice */
+        else if (memcmp(&s->f, &wantf, 4) != 0 && s->f == (float) want) vh_violation("C04:float-rounded-twice-in-build-without-strtof", "ParamFloat(\"%s\") = %a, the literal denotes %a; (float) strtod gives %a", vh_esc(l->text, l->n), (double) s->f, (double) wantf, (double) (float) want);
+#endif
         else if (memcmp(&s->f, &wantf, 4) != 0) { snprintf(key, sizeof key, "C04:float-value:%s", l->cls); vh_violation(key, "ParamFloat(\"%s\") = %a, the literal denotes %a", vh_esc(l->text, l->n), (double) s->f, (double) wantf); }
         else vh_count("fp.float_ok", 1);
         if (sample) { memcpy(&fb, &s->f, 4); record("F", l->text, l->n, "-", fb); }
